@@ -53,6 +53,7 @@ def check(w):
     eobs, erej = p_sync.run_validate_confirm(w, "rs", lines, "c09e2e", v, ecounts, esig)
     n_err_del = sum(1 for o in eobs if o.get("ioerr") and o["opts"].get("del") and o["id"] not in erej and {n["p"] for n in o["dst"]} - {n["p"] for n in o["src"]})
     n_ok_del = sum(1 for o in eobs if not o.get("ioerr") and o["opts"].get("del") and o["id"] not in erej and {n["p"] for n in o["dst"]} - {n["p"] for n in o["final"]})
+    n_wire_err = sum(1 for o in eobs if o.get("ioerr") and o.get("fullwire") and o["result"] == "ok")
     if not (n_err_del and n_ok_del):
         raise Broken("vacuous end-to-end part: %d accepted runs with an unreadable source and something extraneous, %d accepted deleting runs that removed something" % (n_err_del, n_ok_del))
     def nextra(o):
@@ -69,7 +70,8 @@ def check(w):
         "rule": "source tree x destination tree over the path universe (0..many extraneous files, directories with content, symlinks, fifos in every sort position, nested) x "
                 "{--delete, --delete with sender io error, no --delete}, run on the real client receiver (pull) and a real writable module (upload); non-trivial = at least one extraneous entry",
         "end_to_end": {"runs": len(eobs), "with_unreadable_source_argument": sum(1 for o in eobs if o.get("ioerr")), "unreadable_and_extraneous_kept": n_err_del, "deleting_runs_that_removed": n_ok_del,
-                       "rule": "real sender and real receiver (local copy, upload to a daemon), the 'rs' family x {no unreadable source, a nonexistent source argument first, last}; validated by SyncTrace with the sender's error word = 1 exactly when a source argument could not be read"},
+                       "transcripts": dict(p_sync.wire_coverage(ecounts), with_error_word_set=n_wire_err),
+                       "rule": "real sender and real receiver (local copy, upload to a daemon), the 'rs' family x {no unreadable source, a nonexistent source argument first, last}; validated by SyncTrace with the sender's error word = 1 exactly when a source argument could not be read; the complete transcripts of the uploads (tap proxy) are validated by RsyncTrace, whose list-end item must carry that very word"},
         "action_coverage": cov, "negative_controls": nneg, "worker_crashes": counts.get("crashed", 0),
     }
     v.assumptions = ["exclude-rule protection is modelled (prot) but the families generate no rules yet: a receiver has no rule list to honour in this code base (see DESIGN.md findings)"]
